@@ -120,3 +120,38 @@ Proof. intros R Hok T HS. apply Forall_app in Hok. destruct Hok as [H1 Hrest]. i
   destruct M as (_ & _ & _ & _ & _ & _ & _ & _ & _ & _ & _ & _ & M & _).
   destruct F as (_ & _ & _ & _ & _ & _ & _ & _ & _ & _ & _ & _ & F1 & F2).
   rewrite E3 in M, F1, F2. cbn [opt_res] in M, F1, F2. repeat split; assumption. Qed.
+
+Lemma rel_setopcr l1 v : isSome (l_opcr l1) = true ->
+  (forall l', op_rel l1 (OSetOPCR v) (Done l') -> l' = set_opcr l1 (Some (pcr_enc v))) /\ (forall e, ~ op_rel l1 (OSetOPCR v) (Fail e)).
+Proof. intros P. split.
+  - intros l' (u & _ & _ & E). cbn [spec_step] in E. rewrite P in E. injection E as ->. reflexivity.
+  - intros e (u & _ & _ & E). cbn [spec_step] in E. rewrite P in E. discriminate. Qed.
+
+Theorem opcr_last_set p l hdr pay h1 v h2 : repr p l hdr pay -> Forall op_ok (h1 ++ OSetOPCR v :: h2) ->
+  Forall (fun o => touches 1 o = false) h2 -> HasOPCR (run p h1) = Ok true ->
+  OPCR (run p (h1 ++ OSetOPCR v :: h2)) = Ok v /\ AFfn.OPCR (run p (h1 ++ OSetOPCR v :: h2)) = Ok (pcr_enc v).
+Proof. intros R Hok T HP. apply Forall_app in Hok. destruct Hok as [H1 Hrest]. inversion Hrest as [|? ? Hv H2]; subst.
+  destruct (history h1 p l hdr pay R H1) as (l1 & _ & R1).
+  destruct (getters_agree _ _ _ _ R1) as ((_ & _ & _ & _ & _ & G & _) & _). rewrite HP in G. injection G as G.
+  destruct (rel_setopcr l1 v (eq_sym G)) as [HD HF].
+  destruct (after_set p hdr pay h1 h2 1%nat (OSetOPCR v) l1 (set_opcr l1 (Some (pcr_enc v))) R1 Hv H2 T) as (l3 & R3 & E3).
+  { intros l' D. rewrite (HD l' D). reflexivity. } { exact HF. }
+  cbn [proj set_opcr l_opcr] in E3.
+  destruct (getters_agree _ _ _ _ R3) as (M & F).
+  destruct M as (_ & _ & _ & _ & _ & _ & _ & _ & _ & _ & M & _). destruct F as (_ & _ & _ & _ & _ & _ & _ & _ & _ & _ & F & _).
+  rewrite E3 in M, F. cbn [opt_res] in M, F. cbn [op_ok] in Hv. rewrite pcr_dec_enc in M by exact Hv. split; assumption. Qed.
+
+Theorem ext_last_set p l hdr pay h1 d h2 p2 : repr p l hdr pay -> Forall op_ok (h1 ++ OSetExt d :: h2) ->
+  Forall (fun o => touches 4 o = false) h2 -> step (run p h1) (OSetExt d) = Ok p2 ->
+  AdaptationFieldExtension (run p (h1 ++ OSetExt d :: h2)) = Ok (len d :: d).
+Proof. intros R Hok T HS. apply Forall_app in Hok. destruct Hok as [H1 Hrest]. inversion Hrest as [|? ? Hv H2]; subst.
+  destruct (history h1 p l hdr pay R H1) as (l1 & _ & R1).
+  destruct (step_ok_inv _ _ _ _ (OSetExt d) p2 R1 Hv HS) as (l2 & (u & _ & _ & D) & R2).
+  cbn [spec_step] in D. destruct (isSome (l_ext l1)); [|discriminate]. symmetry in D. apply grow_inv in D. subst l2.
+  rewrite run_app. unfold run at 1. cbn [fold_left]. fold (run (after (run p h1) (OSetExt d)) h2).
+  rewrite (after_ok _ _ _ HS).
+  destruct (history h2 p2 _ hdr pay R2 H2) as (l3 & HR & R3).
+  pose proof (hist_keeps 4 h2 _ l3 T HR) as E3. cbn [proj set_ext l_ext] in E3.
+  destruct (getters_agree _ _ _ _ R3) as (M & F).
+  destruct M as (_ & _ & _ & _ & _ & _ & _ & _ & _ & _ & _ & _ & _ & M).
+  rewrite E3 in M. cbn [opt_res] in M. exact M. Qed.
